@@ -63,6 +63,13 @@ pub fn final_request(srv: &Value, version: u32, client_pub: &[u8], key: &[u8], s
             v.extend(c);
             v
         }
+        // C07: Faults.tla descriptors applied to the honest request
+        "faulted" => {
+            let t = s2c.wrap(&honest_plain);
+            let mut r = wrap_req(&t);
+            for d in srv.get("final").and_then(|f| f.get("faults")).and_then(|x| x.as_array()).cloned().unwrap_or_default() { r = crate::faults::apply(&r, &d); }
+            r
+        }
         _ => { let t = s2c.wrap(&honest_plain); wrap_req(&t) }
     }
 }
